@@ -285,6 +285,7 @@ def add_ops(doc, rng, label):
     Sx["C16Needy"] = G.obj({"1st": {"type": "string"}, "_private": {"type": "integer"}, "ok": {"type": "boolean"}, "kind": {"$ref": REF + "C16Kind"},
                             "levels": G.arr({"$ref": REF + "C16Level"})}, required=["1st"])
     Sx["1C16Digit"] = G.obj({"v": {"type": "integer"}})
+    Sx["C16Holder"] = G.obj({"c16_plain": {"$ref": REF + "C16Plain"}, "C16Kind": {"$ref": REF + "C16Kind"}, "many": G.arr({"$ref": REF + "C16Plain"})})
     Sx["C16Top"] = G.obj({"child": G.obj({"z": {"type": "string"}, "deep": G.obj({"w": {"type": "integer"}}, title="Deep Zq Title")}, title="Kid Zq Title"),
                           "plain": G.obj({"q": {"type": "integer"}}), "described": {"type": "string", "description": "a described attribute"}},
                          title="Top Zq Title", description="A titled model.")
